@@ -18,7 +18,7 @@ KF_FILE = os.path.join(VERIF, 'known-findings.txt')
 _built = {}
 
 FAMILY_BOUNDS = {
-    'state_ops': 'all sequences of <= 8 operations over {push, pop, save(3 slots x 3 values), enter, commit, spush, spop} (iterative deepening within the time budget)',
+    'state_ops': 'all sequences of <= 8 operations over {push, pop, save(3 slots x 3 values), enter, commit, spush, spop} (iterative deepening for the first half of the time budget), then seeded long random sequences (200-1700 operations over 3 / 40 / 300 slots, with bursts that save every slot and re-save a prefix inside one level)',
     'iter': '~65 patterns x ~35 texts x backtrack limits {default,1,3,30}: find_iter / captures_iter / split / splitn(n = 0..pieces+1) vs the reference model driven by the real single-shot search; then, for the rest of the budget, seeded generated patterns (the generator of the reference matcher, each also with \\G alternatives) x 14 short texts x limits {default,3}',
     'search': '~80 corpus patterns + 462 group-metadata patterns (6 group forms x 11 quantifiers incl. {0} x 7 contexts, delegated and VM-compiled) x ~40 texts x every char-boundary start offset: entry-point coherence (also under backtrack limits 1, 3, 30: is_match / find / captures agree on Ok / Err), offset validity, group metadata; then seeded generated patterns (with \\G variants) x 14 short texts for the rest of the budget',
     'analyze': '~2000 patterns from a 3-level grammar (incl. huge repeat counts) : Info facts vs match-length sets enumerated up to 14 characters',
